@@ -73,7 +73,7 @@ PROPERTIES.update({
         design_ref="DESIGN.md §7 C18"),
 })
 
-TLS_ASM = "native-tls (prelude/tls.rs + Link::start_ssl stub): start_ssl returns an Ssl link whose certificate flag equals the argument, or an error (handshake / certificate validation failure); TLS itself is not verified"
+TLS_ASM = "native-tls (prelude/tls.rs): TlsStream is an opaque Read + Write; TlsConnectorBuilder / TlsConnector stand-ins state what the crate documents (danger_accept_invalid_certs(true) disables certificate validation, connect returns Err on handshake or validation failure); Link::start_ssl (real body) is verified above them; TLS itself is not verified"
 PROPERTIES.update({
     "C02": dict(
         scope="x224::Client::connect: Ok implies TLS is up on the returned client, the selected protocol is SSL or Hybrid AND was offered in the request mask ((selected as u32) & mask != 0), and the certificate-check flag given by the "
